@@ -109,6 +109,12 @@ class _StatePointDict(JSONAttrDict):
         pass
 
     def _save(self):
+        # Like the base class, do nothing while synchronization is suspended:
+        # nested collections save the root in the middle of an in-place update
+        # (SyncedList._update -> extend); the final save follows the update.
+        if self._suspend_sync:
+            return
+
         # State point modification triggers job migration for all jobs sharing
         # this state point (shallow copies of a single job).
         new_id = calc_id(self)
